@@ -329,6 +329,25 @@ def random_shared_case(rng, max_heavy, p_share=0.6, ctor=None, label_insensitive
     if label_insensitive and not (kinds_unambiguous_without_labels(case) and kinds_unambiguous_without_labels(dis)):
         return None
     truth = M.truth_graph(g)
+    explicit_h = False
+    if annotate and rng.random() < 0.35:
+        # hydrogens written out explicitly ([H], [2H], [H;w=0.5]) - on at most one of the copies of a shared atom
+        gx_ = case['gx']
+        origin_ = case['origin']
+        copies = collections.defaultdict(list)
+        for n_ in gx_:
+            copies[origin_[n_]].append(n_)
+        skip = set()
+        for o_, cs in copies.items():
+            if len(cs) > 1:
+                keep_ = rng.choice(cs)
+                skip |= {c_ for c_ in cs if c_ != keep_}
+        for name in list(case['tokens']):
+            toks_ = M.explicit_hydrogen_tokens(rng, gx_, case['tokens'][name], p=0.5, skip=skip)
+            if len(toks_) != len(case['tokens'][name]):
+                explicit_h = True
+            case['tokens'][name] = toks_
+            case['frags'][name] = M.tokens_text(toks_)
     atom_annotations = {}
     if annotate and rng.random() < 0.5:
         # annotations on atoms of the fragments WITH shared atoms; the two copies of a shared atom may each carry some:
@@ -342,6 +361,8 @@ def random_shared_case(rng, max_heavy, p_share=0.6, ctor=None, label_insensitive
             atoms_ = [k for k, t in enumerate(toks) if t[0] == 'atom']
             for pos_, k in enumerate(atoms_):
                 t = toks[k]
+                if isinstance(t[2], tuple):
+                    continue            # an explicitly written hydrogen: counted as an atom of the text, not annotated here
                 d = gx_.nodes[t[2]]
                 is_shared = any(x[0] == '!' for x in case['desc'].get(t[2], []))
                 if rng.random() < (0.8 if is_shared else 0.25) and not d.get('aromatic') and d['charge'] == 0:
@@ -406,6 +427,8 @@ def random_shared_case(rng, max_heavy, p_share=0.6, ctor=None, label_insensitive
                legacy=not label_insensitive, atom_annotations=atom_annotations)
     if atom_annotations:
         res['features'] = sorted(set(res['features']) | {'annotated_fragment_atoms', 'annotations_on_shared_atoms'})
+    if explicit_h:
+        res['features'] = sorted(set(res['features']) | {'explicit_hydrogens_in_fragments_with_shared_atoms'})
     if label_insensitive:
         res['features'] = sorted(set(res['features']) | {'label_insensitive_convention'})
     return res
